@@ -163,6 +163,117 @@ class Extractor(object):
         V().visit(fn)
         return loc - glob, glob
 
+    # -- flag tests -------------------------------------------------------------
+    @staticmethod
+    def _int_const(e):
+        """the int value of a literal (`2`, `-1`, `True`), else None"""
+        if isinstance(e, ast.Constant) and isinstance(e.value, (int, bool)) and not isinstance(e.value, float):
+            return int(e.value)
+        if isinstance(e, ast.UnaryOp) and isinstance(e.op, ast.USub) and isinstance(e.operand, ast.Constant) \
+                and isinstance(e.operand.value, int) and not isinstance(e.operand.value, (bool, float)):
+            return -int(e.operand.value)
+        return None
+
+    def flag_test(self, t, ctx):
+        """a test that compares one shared location with an int literal, whichever way it is written
+        (`g == 2`, `2 == g`, `g != 2`, `not g == 2`, `not (g != 2)`): returns (name, const, negated) or None.
+        Each form reads the location exactly once, like the `iteEq` it becomes."""
+        m, fn_locals, stack = ctx
+        neg = False
+        while isinstance(t, ast.UnaryOp) and isinstance(t.op, ast.Not):
+            neg = not neg
+            t = t.operand
+        if not (isinstance(t, ast.Compare) and len(t.ops) == 1 and isinstance(t.ops[0], (ast.Eq, ast.NotEq))):
+            return None
+        l, r = t.left, t.comparators[0]
+        if not isinstance(l, ast.Name):
+            l, r = r, l
+        if not (isinstance(l, ast.Name) and l.id in m.shared and l.id not in fn_locals):
+            return None
+        c = self._int_const(r)
+        if c is None:
+            return None
+        if isinstance(t.ops[0], ast.NotEq):
+            neg = not neg
+        return (l.id, c, neg)
+
+    # -- constants handed to a helper -------------------------------------------
+    def const_params(self, fn, call):
+        """parameter name -> int literal, for the parameters of the plain function `fn` that the call
+        site `call` binds to an int literal and that `fn` never re-binds (so that `g = k` inside a helper
+        `def set_flag(k): global g; g = k` called as `set_flag(2)` is the constant store `g = 2`)"""
+        if call is None or any(isinstance(a, ast.Starred) for a in call.args) or any(k.arg is None for k in call.keywords):
+            return {}
+        if fn.args.vararg is not None or getattr(fn.args, 'posonlyargs', None):
+            return {}
+        names = [a.arg for a in fn.args.args]
+        bound = {}
+        for n, a in zip(names, call.args):
+            bound[n] = a
+        if len(call.args) > len(names):
+            return {}
+        allowed = set(names) | set(a.arg for a in fn.args.kwonlyargs)
+        for k in call.keywords:
+            if k.arg not in allowed or k.arg in bound:
+                return {}
+            bound[k.arg] = k.value
+        rebound = set()
+        for node in ast.walk(fn):
+            if isinstance(node, ast.Name) and isinstance(node.ctx, (ast.Store, ast.Del)):
+                rebound.add(node.id)
+            elif isinstance(node, (ast.Global, ast.Nonlocal)):
+                rebound.update(node.names)
+            elif isinstance(node, (ast.FunctionDef, ast.Lambda, ast.ClassDef)) and node is not fn:
+                # a nested scope may shadow or (nonlocal) re-bind: give up on every name it mentions
+                for sub in ast.walk(node):
+                    if isinstance(sub, ast.Name):
+                        rebound.add(sub.id)
+                    elif isinstance(sub, ast.arg):
+                        rebound.add(sub.arg)
+        out = {}
+        for n, a in bound.items():
+            c = self._int_const(a)
+            if c is not None and n not in rebound:
+                out[n] = c
+        return out
+
+    # -- local aliases of functions -----------------------------------------------
+    @staticmethod
+    def local_aliases(fn):
+        """local name -> the Name / Lambda it is bound to, for locals of `fn` bound exactly once, by a plain
+        `rhs = f` or `rhs = lambda ...` (a right-hand side hoisted into a local before it is handed to an
+        integrator is still that function)"""
+        stores = {}
+        for node in ast.walk(fn):
+            if isinstance(node, ast.Name) and isinstance(node.ctx, (ast.Store, ast.Del)):
+                stores[node.id] = stores.get(node.id, 0) + 1
+            elif isinstance(node, ast.arg):
+                stores[node.arg] = stores.get(node.arg, 0) + 1
+            elif isinstance(node, (ast.FunctionDef, ast.ClassDef)) and node is not fn:
+                stores[node.name] = stores.get(node.name, 0) + 1
+            elif isinstance(node, (ast.Import, ast.ImportFrom)):
+                for al in node.names:
+                    n = al.asname or al.name.split('.')[0]
+                    stores[n] = stores.get(n, 0) + 1
+            elif isinstance(node, (ast.Global, ast.Nonlocal)):
+                for n in node.names:
+                    stores[n] = stores.get(n, 0) + 2
+        out = {}
+        for node in ast.walk(fn):
+            if isinstance(node, ast.Assign) and len(node.targets) == 1 and isinstance(node.targets[0], ast.Name) \
+                    and stores.get(node.targets[0].id) == 1 and isinstance(node.value, (ast.Name, ast.Lambda)):
+                out[node.targets[0].id] = node.value
+        return out
+
+    def dealias(self, a, ctx, depth=0):
+        """follow local aliases of functions (see local_aliases)"""
+        m, fn_locals, stack = ctx
+        al = self._aliases[-1] if getattr(self, '_aliases', None) else {}
+        while isinstance(a, ast.Name) and a.id in fn_locals and a.id in al and depth < 8:
+            a = al[a.id]
+            depth += 1
+        return a
+
     # -- expressions --------------------------------------------------------
     def expr(self, e, ctx):
         """IR of evaluating expression e (reads, inlined calls)"""
@@ -189,8 +300,13 @@ class Extractor(object):
                         and e.func.attr in ('update', 'append', 'extend', 'insert', 'pop', 'remove', 'clear', 'setdefault',
                                             'add', 'discard', 'popitem', 'sort', 'reverse'):
                     parts.append(('w', self.loc(m, e.func.value.id)))
-            callee = self.resolve(e.func, ctx)
+            target_fn = self.dealias(e.func, ctx)
+            if isinstance(target_fn, ast.Lambda) and target_fn is not e.func:
+                # a call of a local bound once to a lambda runs the lambda's body
+                parts.append(self.expr(target_fn.body, (m, fn_locals | set(x.arg for x in target_fn.args.args), stack)))
+            callee = self.resolve(target_fn, ctx)
             if callee is not None:
+                self._pending_call = e          # consumed by inline(): int literals bound to parameters
                 parts.append(self.inline(callee[0], callee[1], stack))
             elif isinstance(e.func, ast.Attribute) and not (isinstance(e.func.value, ast.Name)
                                                             and e.func.value.id in ('numpy', 'np', 'scipy', 'math', 'os', 'copy')):
@@ -209,6 +325,12 @@ class Extractor(object):
         if isinstance(e, ast.Lambda):
             return ('skip',)
         if isinstance(e, ast.IfExp):
+            ft = self.flag_test(e.test, ctx)
+            if ft is not None:      # `a if flag == c else b`: the same path-sensitive branch as the statement form
+                yes, no = self.expr(e.body, ctx), self.expr(e.orelse, ctx)
+                if ft[2]:
+                    yes, no = no, yes
+                return ('iteEq', self.loc(m, ft[0]), ft[1], yes, no)
             return self.seq([self.expr(e.test, ctx), ('ite', self.expr(e.body, ctx), self.expr(e.orelse, ctx))])
         if isinstance(e, ast.BoolOp):
             # short circuit: first operand always, the rest maybe
@@ -303,15 +425,18 @@ class Extractor(object):
     def callback(self, a, ctx):
         """IR of the body of a function-valued argument, or None"""
         m, fn_locals, stack = ctx
+        a = self.dealias(a, ctx)
         if isinstance(a, ast.Lambda):
             return self.expr(a.body, (m, fn_locals | set(x.arg for x in a.args.args), stack))
         r = self.resolve(a, ctx) if isinstance(a, ast.Name) else None
         if r is not None:
+            self._pending_call = None
             return self.inline(r[0], r[1], stack)
         return None
 
     # -- statements ---------------------------------------------------------
     def inline(self, m, fname, stack):
+        call, self._pending_call = getattr(self, '_pending_call', None), None   # the call site, if expr() set one
         key = (m.name, fname)
         if key in stack:
             self.notes.append('recursion through %s.%s cut' % key)
@@ -323,9 +448,43 @@ class Extractor(object):
             fn = m.funcs[fname]
         loc, glob = self.locals_of(fn)
         ctx = (m, loc, stack + (key,))
-        return self.block(fn.body, ctx, glob)
+        consts = self.const_params(fn, call) if '.' not in fname else {}
+        if not hasattr(self, '_consts'):
+            self._consts = []
+        self._consts.append(consts)
+        if not hasattr(self, '_aliases'):
+            self._aliases = []
+        self._aliases.append(self.local_aliases(fn))
+        try:
+            return self.block(fn.body, ctx, glob)
+        finally:
+            self._consts.pop()
+            self._aliases.pop()
+
+    @staticmethod
+    def _terminates(stmts):
+        """does this statement list always leave the enclosing block (return / raise / break / continue)?"""
+        if not stmts:
+            return False
+        last = stmts[-1]
+        if isinstance(last, (ast.Return, ast.Raise, ast.Break, ast.Continue)):
+            return True
+        if isinstance(last, ast.If):
+            return Extractor._terminates(last.body) and Extractor._terminates(last.orelse)
+        return False
 
     def block(self, stmts, ctx, glob):
+        # `if flag == c: ...; return` followed by more statements is `if flag == c: ... else: <the rest>` written
+        # with an early exit: keep the flag's path sensitivity (only for tests on a flag-valued shared location,
+        # so that every other program is extracted exactly as before)
+        for i, s in enumerate(stmts):
+            if isinstance(s, ast.If) and i + 1 < len(stmts) and self.flag_test(s.test, ctx) is not None:
+                bt, et = self._terminates(s.body), self._terminates(s.orelse)
+                if bt != et:
+                    rest = list(stmts[i + 1:])
+                    new = ast.If(test=s.test, body=list(s.body) + ([] if bt else rest),
+                                 orelse=list(s.orelse) + ([] if et else rest))
+                    return self.seq([self.stmt(x, ctx, glob) for x in stmts[:i]] + [self.stmt(new, ctx, glob)])
         return self.seq([self.stmt(s, ctx, glob) for s in stmts])
 
     def target(self, t, value, ctx, glob):
@@ -336,9 +495,16 @@ class Extractor(object):
                 if isinstance(value, ast.Constant) and isinstance(value.value, (int, bool)) \
                         and not isinstance(value.value, float):
                     return ('wc', l, int(value.value))
+                consts = self._consts[-1] if getattr(self, '_consts', None) else {}
+                if isinstance(value, ast.Name) and value.id in consts and value.id in fn_locals:
+                    return ('wc', l, consts[value.id])      # a parameter the call site bound to an int literal
                 return ('w', l)
             return ('skip',)
         if isinstance(t, (ast.Tuple, ast.List)):
+            if isinstance(value, (ast.Tuple, ast.List)) and len(value.elts) == len(t.elts) \
+                    and not any(isinstance(x, ast.Starred) for x in list(t.elts) + list(value.elts)):
+                # `x, flag = -1.0, 1` stores the literal into `flag` exactly as `flag = 1` does
+                return self.seq([self.target(x, v, ctx, glob) for x, v in zip(t.elts, value.elts)])
             return self.seq([self.target(x, None, ctx, glob) for x in t.elts])
         if isinstance(t, ast.Subscript):
             # element store into a shared container: read the container, then treat as write
@@ -371,6 +537,12 @@ class Extractor(object):
                     and isinstance(t.comparators[0], ast.Constant) and isinstance(t.comparators[0].value, int):
                 return ('iteEq', self.loc(m, t.left.id), int(t.comparators[0].value),
                         self.block(s.body, ctx, glob), self.block(s.orelse, ctx, glob))
+            ft = self.flag_test(t, ctx)
+            if ft is not None:      # `2 == flag`, `flag != 2`, `not flag == 2`: same branch, written another way
+                yes, no = self.block(s.body, ctx, glob), self.block(s.orelse, ctx, glob)
+                if ft[2]:
+                    yes, no = no, yes
+                return ('iteEq', self.loc(m, ft[0]), ft[1], yes, no)
             return self.seq([self.expr(t, ctx), ('ite', self.block(s.body, ctx, glob), self.block(s.orelse, ctx, glob))])
         if isinstance(s, ast.For):
             body = self.seq([self.target(s.target, None, ctx, glob), self.block(s.body, ctx, glob)])
@@ -479,6 +651,7 @@ class ClassExtractor(Extractor):
     def __init__(self, cls):
         Extractor.__init__(self)
         self.cls = cls
+        self.clsnames = set(k.__name__ for k in cls.__mro__ if k is not object)
         self.attrs = class_shared_attrs(cls)
         # an attribute the constructor *rebinds* on the instance is per-instance afterwards
         self.rebound = set()
@@ -516,11 +689,11 @@ class ClassExtractor(Extractor):
                     tgt = [node.target]
                 for t in tgt:
                     # self.attr[...] = v   /  self.attr.x = v
-                    if isinstance(t, (ast.Subscript, ast.Attribute)) and self._is_self_attr(t.value):
+                    if isinstance(t, (ast.Subscript, ast.Attribute)) and self._is_owner_attr(t.value):
                         mutated.add(t.value.attr)
-                    if isinstance(node, ast.AugAssign) and self._is_self_attr(t):
+                    if isinstance(node, ast.AugAssign) and self._is_owner_attr(t):
                         mutated.add(t.attr)
-                if isinstance(node, ast.Call) and isinstance(node.func, ast.Attribute) and self._is_self_attr(node.func.value):
+                if isinstance(node, ast.Call) and isinstance(node.func, ast.Attribute) and self._is_owner_attr(node.func.value):
                     a = node.func.value.attr
                     v = None
                     for kk in cls.__mro__:
@@ -538,6 +711,22 @@ class ClassExtractor(Extractor):
     def _is_self_attr(e):
         return isinstance(e, ast.Attribute) and isinstance(e.value, ast.Name) and e.value.id == 'self'
 
+    def _is_class_ref(self, e):
+        """an expression that denotes the class object itself: `Blake` (any class of the MRO, by name),
+        `type(self)`, `self.__class__`"""
+        if isinstance(e, ast.Name):
+            return e.id in getattr(self, 'clsnames', ())
+        if isinstance(e, ast.Call) and isinstance(e.func, ast.Name) and e.func.id == 'type' and len(e.args) == 1 \
+                and not e.keywords and isinstance(e.args[0], ast.Name) and e.args[0].id == 'self':
+            return True
+        return isinstance(e, ast.Attribute) and e.attr == '__class__' and isinstance(e.value, ast.Name) \
+            and e.value.id == 'self'
+
+    def _is_owner_attr(self, e):
+        """`self.attr`, or the same class-level attribute reached through the class (`Blake.attr`,
+        `type(self).attr`, `self.__class__.attr`)"""
+        return self._is_self_attr(e) or (isinstance(e, ast.Attribute) and self._is_class_ref(e.value))
+
     def aloc(self, a):
         k = 'class.%s.%s' % (self.attrs[a], a)
         if k not in self.locs:
@@ -545,6 +734,12 @@ class ClassExtractor(Extractor):
         return self.locs[k]
 
     def is_shared(self, e):
+        if isinstance(e, ast.Attribute) and not isinstance(e.value, ast.Name) and self._is_class_ref(e.value) \
+                and e.attr in self.attrs:
+            return True                 # type(self).attr / self.__class__.attr
+        if isinstance(e, ast.Attribute) and isinstance(e.value, ast.Name) and e.value.id != 'self' \
+                and self._is_class_ref(e.value) and e.attr in self.attrs:
+            return True                 # Blake.attr: the class-level object, whatever the instance re-binds
         return isinstance(e, ast.Attribute) and isinstance(e.value, ast.Name) and e.value.id == 'self' \
             and e.attr in self.attrs and e.attr not in self.rebound
 
